@@ -246,6 +246,24 @@ def _run_histories(chk, hx, judge):
             batches.append(("twins%d" % k, txt))
             k += 500
 
+        # fifth stream: expression-on-the-left generalized images / preimages (every overlap shape of the two sides)
+        r5 = random.Random(chk.seed * 49979687 + 29)
+        target5 = 1200 if chk.quick else 12000
+        k = 0
+        while k < target5:
+            txt = "".join(gen_grid.lhs_case(r5, "l%d" % (k + i)) for i in range(min(400, target5 - k)))
+            batches.append(("lhs%d" % k, txt))
+            k += 400
+
+        # sixth stream: assignment / copy / swap into a live, differently minimized target from every lazy source state
+        r6 = random.Random(chk.seed * 67867967 + 31)
+        target6 = 1200 if chk.quick else 12000
+        k = 0
+        while k < target6:
+            txt = "".join(gen_grid.assign_case(r6, "a%d" % (k + i)) for i in range(min(400, target6 - k)))
+            batches.append(("assign%d" % k, txt))
+            k += 400
+
     hist = {}
     ncases = nfail = nunk = 0
     seen_fail = {}
